@@ -72,6 +72,7 @@ func checkC16(c *Check, a *Anchors) {
 	noSlotHeldAcrossRecursion(c, a, "no-slot-held-across-recursion")
 	deepCopyNilSafe(c, a, "deepcopy-nil-safe")
 	reflectIsNilGuarded(c, a, "reflect-isnil-guarded")
+	discardedErrorValueUsed(c, a, "discarded-error-value-used")
 	recursionReviewed(c, a, "recursion-reviewed") // termination of loading / merging / compiling: the recursions are the only unbounded construct besides the reviewed loops
 }
 
